@@ -498,6 +498,13 @@ Section LTS.
     apply (inv_set_wk s w (KAtGet, ev)); auto; try reflexivity. intros c. discriminate.
   Qed.
 
+  Lemma inv_KCTimeout s w : Inv s -> wenabled s (KCTimeout w) = true -> Inv (step s (KCTimeout w)).
+  Proof.
+    intros H En. unfold wstep. rewrite En. cbn [negb]. unfold wenabled, wk_get in *.
+    destruct (nth_error (wks s) w) as [[[] ev]|] eqn:Ew; try discriminate.
+    apply (inv_set_wk s w (KAtGet, ev)); auto; try reflexivity. intros c. discriminate.
+  Qed.
+
   Lemma inv_KIsSet s w : Inv s -> wenabled s (KIsSet w) = true -> Inv (step s (KIsSet w)).
   Proof.
     intros H En. unfold wstep. rewrite En. cbn [negb]. unfold wenabled, wk_get in *.
@@ -874,6 +881,7 @@ Section LTS.
     - apply inv_KCb; assumption.
     - apply inv_KPut; assumption.
     - apply inv_KExit; assumption.
+    - apply inv_KCTimeout; assumption.
   Qed.
 
   Lemma inv_run l : forall s, Inv s -> Inv (run s l).
@@ -1175,7 +1183,7 @@ Section LTS.
   Proof.
     intros H En Hpoll. unfold wstep. rewrite En. cbn [negb]. unfold wk_get.
     pose proof (i_wks s H) as Hw. unfold wks_ok in Hw.
-    destruct a as [| | | | | |w| | |w|w|w|w|w|w|w]; unfold wenabled, wk_get in En; cbn [wpolling] in Hpoll;
+    destruct a as [| | | | | |w| | |w|w|w|w|w|w|w|w]; unfold wenabled, wk_get in En; cbn [wpolling] in Hpoll;
       try discriminate.
     - (* DPut *)
       destruct (d_pc s) as [l| |p| | | |k| |] eqn:Epc; try discriminate.
@@ -1257,6 +1265,11 @@ Section LTS.
       destruct (nth_error (wks s) w) as [[[] ev]|] eqn:Ew; try discriminate. msr.
       pose proof (len_flat_set_nth (wtok (wflag s)) (wks s) w _ (KExited code, ev) Ew) as Hc. rewrite !wtok_len in Hc.
       cbn [fst wrank] in Hc. destruct (rq_fdone s); lia.
+    - (* KCTimeout *)
+      apply negb_false_iff in Hpoll.
+      destruct (nth_error (wks s) w) as [[[] ev]|] eqn:Ew; try discriminate. msr. rewrite Hpoll.
+      pose proof (len_flat_set_nth (wtok true) (wks s) w _ (KAtFlag, ev) Ew) as Hc. rewrite !wtok_len in Hc.
+      cbn [fst wrank] in Hc. destruct (rq_fdone s); lia.
   Qed.
 
   (* polling moves (and the dispatcher's timeout) leave the measure unchanged *)
@@ -1264,7 +1277,7 @@ Section LTS.
     wenabled s a = true -> wpolling s a = true -> measure (step s a) = measure s.
   Proof.
     intros En Hpoll. unfold wstep. rewrite En. cbn [negb]. unfold wk_get.
-    destruct a as [| | | | | |w| | |w|w|w|w|w|w|w]; unfold wenabled, wk_get in En; cbn [wpolling] in Hpoll;
+    destruct a as [| | | | | |w| | |w|w|w|w|w|w|w|w]; unfold wenabled, wk_get in En; cbn [wpolling] in Hpoll;
       try discriminate.
     - reflexivity.
     - apply negb_true_iff in Hpoll.
@@ -1274,6 +1287,10 @@ Section LTS.
     - apply negb_true_iff in Hpoll.
       destruct (nth_error (wks s) w) as [[[] ev]|] eqn:Ew; try discriminate. rewrite Hpoll. msr. rewrite Hpoll.
       pose proof (len_flat_set_nth (wtok false) (wks s) w _ (KAtGet, ev) Ew) as Hc. rewrite !wtok_len in Hc.
+      cbn [fst wrank] in Hc. lia.
+    - apply negb_true_iff in Hpoll.
+      destruct (nth_error (wks s) w) as [[[] ev]|] eqn:Ew; try discriminate. msr. rewrite Hpoll.
+      pose proof (len_flat_set_nth (wtok false) (wks s) w _ (KAtFlag, ev) Ew) as Hc. rewrite !wtok_len in Hc.
       cbn [fst wrank] in Hc. lia.
   Qed.
 End LTS.
